@@ -23,6 +23,7 @@ type FuncVC struct {
 	HasContract bool
 	NumLoops    int
 	noPush      bool // render single-obligation scripts without push/pop (non-incremental solver pipeline)
+	tactic      bool // `option tactic-solve`: every query of the incremental session runs through z3's preprocessing tactics
 	vc          *VC
 	entry       *State
 	params      []Val
@@ -35,6 +36,7 @@ type VerifyOpts struct {
 	SafetyOnly  bool // ignore functional clauses (sweep mode)
 	ParamInvs   map[string]string // parameter type string -> invariant expression over `$p` (assumed at entry, kept as loop invariant)
 	NoAssume    func(name, kind string) bool // obligations not claimed by the running check: never assumed afterwards
+	NoSafety    bool   // generate no safety (panic-freedom) obligations and assume nothing from them: functional clauses only
 	CtxPkg      string // H11: verify the function against the contract that THIS package declares for it (its environment model), see GenVC
 }
 
@@ -61,6 +63,7 @@ func (e *Engine) GenVC(fn *ssa.Function, opts VerifyOpts) (res *FuncVC) {
 	vc.noFrame = opts.NoFrame
 	vc.paramInvs = opts.ParamInvs
 	vc.noAssume = opts.NoAssume
+	vc.noSafety = opts.NoSafety
 	res.vc = vc
 	defer func() {
 		if r := recover(); r != nil {
@@ -112,6 +115,7 @@ func (e *Engine) GenVC(fn *ssa.Function, opts VerifyOpts) (res *FuncVC) {
 	}
 	res.HasContract = fr.contract != nil
 	res.NumLoops = len(fr.loopOrd)
+	fr.initTrack()
 	vc.opaque = map[string]bool{}
 	vc.binderTyping = fr.contract != nil && fr.contract.Options["binder-typing"]
 	if fr.contract != nil && fr.contract.Options["relative-index"] {
@@ -124,6 +128,11 @@ func (e *Engine) GenVC(fn *ssa.Function, opts VerifyOpts) (res *FuncVC) {
 	if fr.contract != nil && fr.contract.Options["heap-closedness"] {
 		vc.closedness = true
 	}
+	vc.specRanges = fr.contract != nil && fr.contract.Options["spec-ranges"]
+	// `option tactic-solve`: in the incremental session (one solver process for all obligations of the function, push/pop
+	// per obligation) each query is decided by (then simplify propagate-values solve-eqs smt) instead of the incremental
+	// core: the definitional equalities of a long straight-line function (named sums, loads) are eliminated before search.
+	res.tactic = fr.contract != nil && fr.contract.Options["tactic-solve"]
 	if fr.contract != nil {
 		for _, n := range fr.contract.Opaque {
 			vc.opaque[e.qualifySpecName(fn, n)] = true
@@ -227,6 +236,14 @@ func (e *Engine) GenVC(fn *ssa.Function, opts VerifyOpts) (res *FuncVC) {
 	fr.entry.reach = st.reach
 	results, out := fr.run(st)
 	fname := res.Name
+	if out != nil && fr.contract != nil && fr.contract.Options["uses-at-exit"] {
+		// `option uses-at-exit`: the lemmas of the `uses` clause are also made available over the heap of the exit state.
+		// (A lemma is proved for an arbitrary heap; by default it is instantiated over the entry heap only, which is of no
+		// use for a postcondition about memory the function itself has written.)
+		for _, ln := range fr.contract.Uses {
+			fr.assumeLemma(ln, out)
+		}
+	}
 	exitReach := ""
 	if out != nil && fr.contract != nil && !opts.SafetyOnly {
 		penv := fr.baseEnv(out)
@@ -265,6 +282,15 @@ func (e *Engine) GenVC(fn *ssa.Function, opts VerifyOpts) (res *FuncVC) {
 			exitReach = out.reach
 		}
 		vc.obligs = append(vc.obligs, &Oblig{Name: fname + "#cover:exit", Kind: "cover", Reach: exitReach, Goal: "false", IsCover: true, Func: fn.String(), Text: "some execution reaches a return"})
+	}
+	if fr.contract != nil && fr.trk != nil {
+		for i, lc := range fr.contract.AtLine {
+			if !fr.trk.cutDone[i] {
+				an := fmt.Sprintf("%s#assert:line%d.%d", fname, lc.Line, i+1)
+				vc.obligs = append(vc.obligs, &Oblig{Name: an, Kind: "assert", Reach: "true", Goal: "false", Pos: fn.Pos(), Func: fn.String(),
+					Text: fmt.Sprintf("ANCHOR MISSING: no statement of the function starts on line %d any more, the cut cannot be generated (clause: %s)", lc.Line, lc.C.Text)})
+			}
+		}
 	}
 	// an `assert before <callee>@k` clause that never met its call site no longer describes the code: contract drift
 	if fr.contract != nil {
@@ -338,7 +364,11 @@ func (f *FuncVC) Script(obs []*Oblig, timeoutMs int, models bool) string {
 			sb.WriteString(fmt.Sprintf("(set-option :timeout %d)\n", timeoutMs))
 		}
 		sb.WriteString("(assert " + and(o.Reach, not(o.Goal)) + ")\n")
-		sb.WriteString("(check-sat)\n")
+		if f.tactic && !single && !o.IsCover && timeoutMs > 0 {
+			sb.WriteString(fmt.Sprintf("(check-sat-using (try-for (then simplify propagate-values solve-eqs smt) %d))\n", timeoutMs))
+		} else {
+			sb.WriteString("(check-sat)\n")
+		}
 		if models {
 			sb.WriteString("(get-model)\n")
 		}
@@ -395,6 +425,13 @@ func (fr *Frame) assumeLemma(name string, st *State) {
 	guard = append(guard, vc.exitBinder()...)
 	body := implies(and(append(guard, req...)...), and(ens...))
 	pats := specAppTerms(and(ens...), vars)
+	if fr.contract != nil && fr.contract.Options["lemma-patterns"] {
+		// `option lemma-patterns`: use the applications of spec functions in the lemma's conclusion as a multi-pattern.
+		// (specAppTerms looks for "(|spec|", but sym() prints spec function symbols as |spec!...|, so by default no lemma
+		// gets an explicit pattern and instantiation is left to the solver's own choice; changing that for every existing
+		// contract would change the behaviour of all checks, hence the option.)
+		pats = specAppTermsPrefix(and(ens...), vars, "(|spec!")
+	}
 	q := ""
 	if len(pats) > 0 && len(vars) > 0 {
 		q = forall(vars, "(! "+body+" :pattern ("+strings.Join(pats, " ")+"))")
@@ -409,10 +446,14 @@ func (fr *Frame) assumeLemma(name string, st *State) {
 // specAppTerms extracts the uninterpreted spec-function applications in t that mention at least one bound variable
 // and together cover all of them (used as a multi-pattern).
 func specAppTerms(t string, vars [][2]string) []string {
+	return specAppTermsPrefix(t, vars, "(|spec|")
+}
+
+func specAppTermsPrefix(t string, vars [][2]string, prefix string) []string {
 	var out []string
 	seen := map[string]bool{}
 	for i := 0; i < len(t); i++ {
-		if strings.HasPrefix(t[i:], "(|spec|") {
+		if strings.HasPrefix(t[i:], prefix) {
 			d := 0
 			for j := i; j < len(t); j++ {
 				if t[j] == '(' {
